@@ -161,7 +161,7 @@ def uvl_model(g, n):
     rng = g.rng
     kinds = ("mandatory", "optional", "alternative", "or", "mutex", "card", "nn", "star")
     names = [x for x in g.names(n + 10, UVL_NAME_CLASSES)]
-    root = g.tree(n, names=names[:n], kinds=kinds, typed=True, fcard=True, abstract=True)
+    root = g.tree(n, names=names[:n], kinds=kinds, typed=True, fcard=True, abstract=True, wide=True)
     attr_names = [a for a in g.names(5, ("plain", "space", "keyword", "nonascii", "lead")) if a != "abstract"]
     for f in spec.spec_features(root):
         if rng.random() < 0.35:
